@@ -684,6 +684,48 @@ static std::string handle(std::vector<std::string> &a)
     fclose(fp);
     return r;
   }
+  if (c == "hmseq")
+  {
+    // hmseq KEY op;op;...  : a sequence of operations on ONE hmac object (fields of an op separated by ','):
+    //   g,HM,MSG -> tag ; c,HM,MSG,TAG -> 0|1 ; w,HM,FILE -> bytes [0,48) of FILE after writeFileHmac(HM, fp, key, 48, 10)
+    bytes k = unhex(a[1]);
+    k.resize(16);
+    hmac h;
+    std::string r;
+    for (auto &o : split(a[2], ';'))
+    {
+      std::vector<std::string> f = split(o, ',');
+      int hm = atoi(f[1].c_str());
+      bytes m = unhex(f[2]);
+      std::string p = write_tmp(m);
+      FILE *fp = fopen(p.c_str(), "rb+");
+      std::string one;
+      if (f[0] == "g")
+      {
+        unsigned char out[64];
+        h.gethmac((u8_t)hm, place_key(k), fp, out);
+        one = hex(out, h.get_length());
+      }
+      else if (f[0] == "c")
+      {
+        bytes st = unhex(f[3]);
+        st.resize(64);
+        one = h.cmphmac((u8_t)hm, place_key(k), fp, st.data()) ? "1" : "0";
+      }
+      else
+      {
+        h.writeFileHmac((u8_t)hm, fp, place_key(k), 48, 10);
+        fflush(fp);
+        bytes after = read_file(p);
+        after.resize(48);
+        one = hex(after);
+      }
+      fclose(fp);
+      unlink(p.c_str());
+      r += (r.empty() ? "" : " ") + one;
+    }
+    return r;
+  }
   if (c == "hmac" || c == "cmph")
   {
     int hm = atoi(a[2].c_str());
